@@ -56,11 +56,17 @@ type Op struct {
 	B  int    `json:"b,omitempty"`
 	MS int    `json:"ms,omitempty"`
 	N  int    `json:"n,omitempty"`
+	// upload: the client goes away (its context is cancelled) right after
+	// the source store accepted the blob
+	Cancel bool `json:"cancel,omitempty"`
 }
 
 func (o Op) String() string {
 	switch o.K {
 	case "upload":
+		if o.Cancel {
+			return fmt.Sprintf("upload(b%d, client gone after the store accepted it)", o.B)
+		}
 		return fmt.Sprintf("upload(b%d)", o.B)
 	case "sleep":
 		return fmt.Sprintf("sleep(%dms)", o.MS)
@@ -166,7 +172,7 @@ func gen(tier string, run int, r *simcore.Rand) *harness.Plan {
 			n := r.Range(1, 4)
 			for i := 0; i < n; i++ {
 				bi := pick()
-				ops = append(ops, Op{K: "upload", B: bi})
+				ops = append(ops, Op{K: "upload", B: bi, Cancel: r.Bool(0.06)})
 				if r.Bool(0.1) {
 					ops = append(ops, Op{K: "upload", B: bi}) // the same blob twice at once
 					uploads++
